@@ -137,6 +137,10 @@ def handle (st : St) (toks : List String) : Option (St × String) :=
       let n ← size? sz
       pure (afterUnpack d (fun _ => rangeStr (getValue d tg rep n)))
     pure (st, s!"U={views d} B={b} V={v}")
+  | ["bigalloc", _, _] =>
+    -- a zeroed buffer of more than 4 GiB cannot be a list here; the answer is the one `C04_unrepresentable_length`
+    -- and `C04_alloc_atomic` prove for *every* buffer: not a success, bytes untouched
+    pure (st, "err head=" ++ Hex.ofBytes (Bytes.zeros 32))
   | ["B", _, "tlv", _, h] => do
     let d ← Hex.toBytes h
     pure (some d, "begin")
